@@ -1329,7 +1329,6 @@ def from_str(x, prec, rnd=round_fast):
     bits. The literal syntax accepted is the same as for Python
     floats.
 
-    TODO: the rounding does not work properly for large exponents.
     """
     x = x.lower().strip()
     if x in special_str:
@@ -1342,16 +1341,32 @@ def from_str(x, prec, rnd=round_fast):
 
     man, exp = str_to_man_exp(x, base=10)
 
-    # XXX: appropriate cutoffs & track direction
-    # note no factors of 5
+    if not man:
+        return fzero
     if abs(exp) > 400:
-        s = from_int(man, prec+10)
-        s = mpf_mul(s, mpf_pow_int(ften, exp, prec+10), prec, rnd)
+        # Avoid expanding 10**exp exactly: compute lower and upper bounds
+        # for |man|*10**exp with directed rounding at a working precision
+        # that is raised until both bounds round to the same value.
+        sign = man < 0
+        aman = abs(man)
+        wp = prec + 10
+        # beyond this working precision every operation below is exact
+        maxwp = prec + bitcount(aman) + 4*abs(exp) + 20
+        while wp < maxwp:
+            lo = mpf_mul(from_int(aman, wp, round_down),
+                mpf_pow_int(ften, exp, wp, round_down), wp, round_down)
+            hi = mpf_mul(from_int(aman, wp, round_up),
+                mpf_pow_int(ften, exp, wp, round_up), wp, round_up)
+            if sign:
+                lo, hi = mpf_neg(hi), mpf_neg(lo)
+            s = mpf_pos(lo, prec, rnd)
+            if s == mpf_pos(hi, prec, rnd):
+                return s
+            wp *= 2
+    if exp >= 0:
+        s = from_int(man * 10**exp, prec, rnd)
     else:
-        if exp >= 0:
-            s = from_int(man * 10**exp, prec, rnd)
-        else:
-            s = from_rational(man, 10**-exp, prec, rnd)
+        s = from_rational(man, 10**-exp, prec, rnd)
     return s
 
 # Binary string conversion. These are currently mainly used for debugging
